@@ -59,17 +59,38 @@ def dur_desc_text(d):
         s = "P%dW" % a["w"]
     else:
         s = "P" + "".join("%d%s" % (a[k], u) for k, u in (("y", "Y"), ("mo", "M"), ("d", "D")) if a.get(k))
-        t = "".join("%d%s" % (a[k], u) for k, u in (("h", "H"), ("mi", "M"), ("s", "S")) if a.get(k))
+        def num(v):      # decimal components: comma for positive offsets, point for negative ones (both are ISO 8601)
+            return "%d" % v if float(v).is_integer() else repr(float(v)).replace(".", "." if neg else ",")
+        t = "".join("%s%s" % (num(a[k]), u) for k, u in (("h", "H"), ("mi", "M"), ("s", "S")) if a.get(k))
         s += ("T" + t) if t else ""
         if s == "P":
             s = "P0Y"
     return ("-" if neg else "") + s
 
 
+def alt_offset_text(rnd, d):
+    """The alternative (date-time like) spelling of an offset, basic or extended, when every component fits it."""
+    a = {k: abs(v) for k, v in d.items()}
+    if any(not float(v).is_integer() for v in a.values()) or "w" in a or a.get("y", 0) > 9999 or a.get("mo", 0) > 11 or a.get("d", 0) > 30 or a.get("h", 0) > 23 or a.get("mi", 0) > 59 or a.get("s", 0) > 59:
+        return None
+    if rnd.random() < 0.5:
+        s = "P%04d-%02d-%02dT%02d:%02d:%02d" % tuple(a.get(k, 0) for k in ("y", "mo", "d", "h", "mi", "s"))
+    else:
+        s = "P%04d%02d%02dT%02d%02d%02d" % tuple(a.get(k, 0) for k in ("y", "mo", "d", "h", "mi", "s"))
+    return s
+
+
 def off_args(rnd, opt, offs):
     out = []
     for d in offs:
         t = dur_desc_text(d)
+        x = rnd.random()
+        if x < 0.25:
+            alt = alt_offset_text(rnd, d)
+            if alt:
+                t = ("-" if t.startswith("-") else rnd.choice(["", "+"])) + alt
+        elif x < 0.4 and not t.startswith("-"):
+            t = "+" + t          # an explicit plus sign
         if rnd.random() < 0.5:
             out.append("%s=%s" % (opt, t))
         else:
@@ -239,7 +260,8 @@ def classify(case, rej, events):
 
 
 OFFS = [{"d": 1}, {"d": -1}, {"h": 6}, {"h": -25}, {"mi": 90}, {"s": -1}, {"w": 1}, {"w": -2}, {"mo": 1}, {"mo": -1}, {"y": 1}, {"y": -4},
-        {"d": 30, "h": 12}, {"y": -2, "s": -4}, {"mo": 13}, {"d": 366}]
+        {"d": 30, "h": 12}, {"y": -2, "s": -4}, {"mo": 13}, {"d": 366},
+        {"h": 1.5}, {"mi": -0.5}, {"h": 2.25}, {"d": 1, "mi": 0.75}, {"h": -0.5}]      # decimal components that come to whole seconds
 POINT_FORMS = None
 
 
